@@ -274,6 +274,93 @@ fn body(max_atoms: usize) -> impl Fn(&Ch) -> Run + Sync + Send {
   }
 }
 
+/// The same question for a registry file whose module information is embedded
+/// in the version manifest and whose content arrives through the deferred
+/// content load.
+fn body_deferred(max_atoms: usize) -> impl Fn(&Ch) -> Run + Sync + Send {
+  move |ch: &Ch| {
+    use crate::registry::*;
+    let mut run = Run::default();
+    let n = ch.shape("n_atoms", max_atoms + 1);
+    let mut tail: Vec<u8> = Vec::new();
+    let mut names = Vec::new();
+    for _ in 0..n {
+      let a = ch.shape("atom", ATOMS.len());
+      tail.extend_from_slice(ATOMS[a].1);
+      names.push(ATOMS[a].0);
+    }
+    // a parsable module whose trailing comment carries the bytes under test
+    let mut content: Vec<u8> = b"export const v = 1;\n//".to_vec();
+    let lead_bom = ch.flag("leading_utf8_bom");
+    if lead_bom {
+      content = [&[0xEF, 0xBB, 0xBF][..], &content[..]].concat();
+    }
+    content.extend_from_slice(&tail);
+    let mut outcome = vec![];
+    for header in HEADERS {
+      let sched = Sched::new(SchedMode::Immediate);
+      let loader = ScriptedLoader::new(sched);
+      loader.add_text("https://x/root.ts", "import \"jsr:@s/a@1\";\n");
+      let mut v = RegVersion::new("1.0.0", &[]);
+      // the embedded module information is computed from the text as a UTF-8 reader sees it
+      v.files = vec![("/mod.ts".into(), content.clone())];
+      v.exports = json!({".": "./mod.ts"});
+      v.embed_module_graph = true;
+      let p = RegPackage { name: "@s/a".into(), versions: vec![v], raw_meta: None };
+      p.install(&loader);
+      let file_url = "https://jsr.io/@s/a/1.0.0/mod.ts";
+      if let Some(h) = header {
+        loader.add(file_url, Entry::with_headers(&content, &[("content-type", &format!("application/typescript; charset={h}"))]));
+      }
+      *loader.cached_only.borrow_mut() = Some(Default::default());
+      let mut graph = ModuleGraph::new(GraphKind::All);
+      if build_graph(&mut graph, vec![url("https://x/root.ts")], &loader, BuildCfg::default(), ch).is_err() {
+        continue;
+      }
+      run.evals += 1;
+      let deferred = loader.log.borrow().iter().filter(|c| c.specifier.as_str() == file_url).count() >= 2;
+      if !deferred {
+        continue; // no embedded info for this text (not analysable): not the path under test
+      }
+      let want = reference(&content, *header, false);
+      let case = json!({"atoms": names, "bytes_hex": hex(&content), "charset_header": header, "path": "deferred registry content load"});
+      match (graph.try_get(&url(file_url)), &want) {
+        (Ok(Some(Module::Js(js))), Want::Text(t)) => {
+          outcome.push(1u8);
+          if js.source.text.as_ref() != t.as_str() {
+            run.violate(
+              format!("deferred-content-text-mismatch@{}", if header.is_some() { "charset-header-ignored" } else { "no-header" }),
+              format!("stored text {:?}, reference decoding {:?}", js.source.text, t),
+              case.clone(),
+            );
+          }
+          if let Some(b) = js.source.try_get_original_bytes()
+            && b.as_ref() != content.as_slice()
+          {
+            run.violate("deferred-original-bytes-differ", format!("{} vs supplied {}", hex(&b), hex(&content)), case.clone());
+          }
+        }
+        (Err(e), Want::DecodeError) if err_kind(e).starts_with("Load:Decode") => outcome.push(2),
+        (Ok(Some(_)), Want::DecodeError) => {
+          outcome.push(3);
+          run.violate("deferred-content-text-mismatch@charset-header-ignored", "unsupported charset label admitted as module", case.clone());
+        }
+        (other, _) => {
+          outcome.push(4);
+          let _ = other;
+        }
+      }
+    }
+    run.state_key = hash_of(&content);
+    run.nontrivial = tail.iter().any(|b| *b >= 0x80);
+    run.outcome_key = hash_of(&outcome);
+    if ch.describe() {
+      run.sample = Some(json!({"atoms": names, "bytes_hex": hex(&content), "path": "deferred registry content load"}));
+    }
+    run
+  }
+}
+
 fn hex(b: &[u8]) -> String {
   b.iter().map(|x| format!("{x:02x}")).collect::<Vec<_>>().join(" ")
 }
@@ -291,12 +378,20 @@ pub fn prop(tier: Tier) -> Prop {
       "a TS module whose decoded text does not parse is reported as a Parse error and its text is not observable; JSON modules accept every byte string".into(),
       "charset labels limited to utf-8, UTF-8, utf-16le, utf-16be, windows-1252 and an unsupported one".into(),
     ],
-    parts: vec![Part {
-      name: "decode",
-      body: Box::new(body(max_atoms)),
-      modes: vec![Mode::Full],
-      what: "root modules built from every byte string x header x scheme x media type",
-    }],
+    parts: vec![
+      Part {
+        name: "decode",
+        body: Box::new(body(max_atoms)),
+        modes: vec![Mode::Full],
+        what: "root modules built from every byte string x header x scheme x media type",
+      },
+      Part {
+        name: "deferred",
+        body: Box::new(body_deferred(max_atoms.min(2))),
+        modes: vec![Mode::Full],
+        what: "registry file with embedded module information whose content arrives through the deferred content load: every byte string (in a trailing comment) x header",
+      },
+    ],
     termination_property: false,
     min_outcomes: 6,
   }
